@@ -126,22 +126,57 @@ func zzSrvVerifyHandshakeSignature(sigType uint8, pubkey crypto.PublicKey, hashF
 //verif:nomerge
 func zzH_c08_server_flow() { zzServerFlow(false) }
 
-func zzServerFlow(c15 bool) {
+func zzServerFlow(c15 bool) { zzServerFlowMode(c15, false) }
+
+// zzKA08 is the key agreement of the TLS-mode twin (the TLS code reaches it through the
+// suite's ka function, so an ordinary harness type does).
+type zzKA08 struct{}
+
+func (zzKA08) generateServerKeyExchange(config *Config, signCert, cipherCert *Certificate, ch *clientHelloMsg, hello *serverHelloMsg) (*serverKeyExchangeMsg, error) {
+	return &serverKeyExchangeMsg{key: []byte{0, 1, 1}}, nil
+}
+func (zzKA08) processClientKeyExchange(config *Config, cert *Certificate, ckx *clientKeyExchangeMsg, version uint16) ([]byte, error) {
+	return zzSrvProcessCKX(nil, config, cert, ckx, version)
+}
+func (zzKA08) processServerKeyExchange(config *Config, ch *clientHelloMsg, sh *serverHelloMsg, cert *x509.Certificate, skx *serverKeyExchangeMsg) error {
+	return nil
+}
+func (zzKA08) generateClientKeyExchange(config *Config, ch *clientHelloMsg, cert *x509.Certificate) ([]byte, *clientKeyExchangeMsg, error) {
+	return nil, nil, errors.New("zz: not used")
+}
+
+func zzSrvProcessCertsTLS(hs *serverHandshakeState, certificates [][]byte) (crypto.PublicKey, error) {
+	return zzSrvProcessCerts(&serverHandshakeStateGM{c: hs.c}, certificates)
+}
+
+func zzServerFlowMode(c15, tlsMode bool) {
 	zzS = zzSrvFlow{}
 	policy := ClientAuthType(vChoice("clientAuth", 5))
 	cfg := &Config{ClientAuth: policy}
-	c := &Conn{config: cfg, vers: VersionGMSSL}
-	var suite *cipherSuite
-	for _, s := range gmCipherSuites {
-		if s.id == GMTLS_SM2_WITH_SM4_SM3 {
-			suite = s
+	var err error
+	if tlsMode {
+		c := &Conn{config: cfg, vers: VersionTLS12}
+		suite := &cipherSuite{id: TLS_ECDHE_RSA_WITH_AES_128_GCM_SHA256, keyLen: 16, ivLen: 4,
+			ka: func(version uint16) keyAgreement { return zzKA08{} }, flags: suiteECDHE | suiteTLS12}
+		hs := &serverHandshakeState{c: c, suite: suite,
+			clientHello: &clientHelloMsg{vers: VersionTLS12, random: make([]byte, 32)},
+			hello:       &serverHelloMsg{vers: VersionTLS12, random: make([]byte, 32)},
+			cert:        &Certificate{Certificate: [][]byte{{1}}}}
+		err = hs.doFullHandshake()
+	} else {
+		c := &Conn{config: cfg, vers: VersionGMSSL}
+		var suite *cipherSuite
+		for _, s := range gmCipherSuites {
+			if s.id == GMTLS_SM2_WITH_SM4_SM3 {
+				suite = s
+			}
 		}
+		hs := &serverHandshakeStateGM{c: c, suite: suite,
+			clientHello: &clientHelloMsg{vers: VersionGMSSL, random: make([]byte, 32)},
+			hello:       &serverHelloMsg{vers: VersionGMSSL, random: make([]byte, 32)},
+			cert:        []Certificate{{Certificate: [][]byte{{1}}}, {Certificate: [][]byte{{2}}}}}
+		err = hs.doFullHandshake()
 	}
-	hs := &serverHandshakeStateGM{c: c, suite: suite,
-		clientHello: &clientHelloMsg{vers: VersionGMSSL, random: make([]byte, 32)},
-		hello:       &serverHelloMsg{vers: VersionGMSSL, random: make([]byte, 32)},
-		cert:        []Certificate{{Certificate: [][]byte{{1}}}, {Certificate: [][]byte{{2}}}}}
-	err := hs.doFullHandshake()
 	if err == nil {
 		vReach("completed")
 		vAssert("completed-implies-key-exchange-decrypted", zzS.ckxOK)
@@ -196,3 +231,46 @@ func zzServerFlow(c15 bool) {
 //verif:unwind 100
 //verif:nomerge
 func zzH_c15_server_flow() { zzServerFlow(true) }
+
+// H08-server-flow-tls: the TLS-mode twin (serverHandshakeState.doFullHandshake in
+// handshake_server.go) under the same scripted client and the same assertions.
+//
+//verif:property C08
+//verif:expect-reach end completed
+//verif:bound as zzH_c08_server_flow, TLS 1.2, an ECDHE suite whose key agreement is a harness object
+//verif:outside as zzH_c08_server_flow
+//verif:stub (*github.com/tjfoc/gmsm/gmtls.Conn).readHandshake zzSrvReadHandshake
+//verif:stub (*github.com/tjfoc/gmsm/gmtls.Conn).sendAlert zzStubSendAlert08
+//verif:stub (*github.com/tjfoc/gmsm/gmtls.Conn).writeRecord zzStubWriteRecord08
+//verif:stub (*github.com/tjfoc/gmsm/gmtls.Conn).flush zzSrvFlush
+//verif:stub (*github.com/tjfoc/gmsm/gmtls.serverHandshakeState).processCertsFromClient zzSrvProcessCertsTLS
+//verif:stub github.com/tjfoc/gmsm/gmtls.pickSignatureAlgorithm zzSrvPickSigAlg
+//verif:stub (github.com/tjfoc/gmsm/gmtls.finishedHash).hashForClientCertificate zzSrvHashForClientCert
+//verif:stub github.com/tjfoc/gmsm/gmtls.verifyHandshakeSignature zzSrvVerifyHandshakeSignature
+//verif:stub github.com/tjfoc/gmsm/gmtls.masterFromPreMasterSecret zzStubMasterFromPMS
+//verif:stub github.com/tjfoc/gmsm/gmtls.newFinishedHash zzEkmNewFH
+//verif:stub (*github.com/tjfoc/gmsm/gmtls.finishedHash).Write zzEkmFHWrite
+//verif:unwind 100
+//verif:nomerge
+func zzH_c08_server_flow_tls() { zzServerFlowMode(false, true) }
+
+// H15-server-flow-tls: the same, seen from C15.
+//
+//verif:property C15
+//verif:expect-reach end completed
+//verif:bound as zzH_c08_server_flow_tls
+//verif:outside as zzH_c08_server_flow
+//verif:stub (*github.com/tjfoc/gmsm/gmtls.Conn).readHandshake zzSrvReadHandshake
+//verif:stub (*github.com/tjfoc/gmsm/gmtls.Conn).sendAlert zzStubSendAlert08
+//verif:stub (*github.com/tjfoc/gmsm/gmtls.Conn).writeRecord zzStubWriteRecord08
+//verif:stub (*github.com/tjfoc/gmsm/gmtls.Conn).flush zzSrvFlush
+//verif:stub (*github.com/tjfoc/gmsm/gmtls.serverHandshakeState).processCertsFromClient zzSrvProcessCertsTLS
+//verif:stub github.com/tjfoc/gmsm/gmtls.pickSignatureAlgorithm zzSrvPickSigAlg
+//verif:stub (github.com/tjfoc/gmsm/gmtls.finishedHash).hashForClientCertificate zzSrvHashForClientCert
+//verif:stub github.com/tjfoc/gmsm/gmtls.verifyHandshakeSignature zzSrvVerifyHandshakeSignature
+//verif:stub github.com/tjfoc/gmsm/gmtls.masterFromPreMasterSecret zzStubMasterFromPMS
+//verif:stub github.com/tjfoc/gmsm/gmtls.newFinishedHash zzEkmNewFH
+//verif:stub (*github.com/tjfoc/gmsm/gmtls.finishedHash).Write zzEkmFHWrite
+//verif:unwind 100
+//verif:nomerge
+func zzH_c15_server_flow_tls() { zzServerFlowMode(true, true) }
